@@ -42,6 +42,7 @@ var want = map[string]string{
 	"(github.com/gebn/bmc/pkg/ipmi.StatusCode).IsTemporary":                "statusIsTemporary",
 	"github.com/gebn/bmc/pkg/dcmi.secondsMultiplier":                       "secondsMultiplier",
 	"github.com/gebn/bmc/pkg/dcmi.rollingAvgPeriodDuration":                "rollingAvgPeriodDuration",
+	"github.com/gebn/bmc.isResponseTo":                                     "isResponseTo",
 }
 
 type tr struct {
@@ -269,6 +270,10 @@ func (t *tr) instr(ins ssa.Instruction, ind string) {
 			args = append(args, t.val(a))
 		}
 		fmt.Fprintf(&t.out, "%slet %s := %s %s\n", ind, x.Name(), n, strings.Join(args, " "))
+	case *ssa.FieldAddr:
+		if _, ok := t.ptrs[x]; !ok {
+			t.fail = "field address of something other than a read-only struct pointer parameter"
+		}
 	case *ssa.DebugRef:
 	default:
 		t.fail = fmt.Sprintf("instruction %T", ins)
@@ -343,6 +348,38 @@ func translate(fn *ssa.Function, name string) (string, string) {
 				ps = append(ps, fmt.Sprintf("(%s_%d : %s)", p.Name(), i, et))
 			}
 			continue
+		}
+		// a pointer to a struct of scalars that is only READ (every use is a field address that is only loaded from):
+		// one parameter per field
+		if pt, ok := p.Type().Underlying().(*types.Pointer); ok {
+			if st, ok := pt.Elem().Underlying().(*types.Struct); ok {
+				for i := 0; i < st.NumFields(); i++ {
+					ft, ok := leanType(st.Field(i).Type())
+					if !ok {
+						return "", "param field type " + st.Field(i).Type().String()
+					}
+					ps = append(ps, fmt.Sprintf("(%s_%s : %s)", p.Name(), st.Field(i).Name(), ft))
+				}
+				for _, ref := range *p.Referrers() {
+					fa, ok := ref.(*ssa.FieldAddr)
+					if !ok {
+						if _, dbg := ref.(*ssa.DebugRef); dbg {
+							continue
+						}
+						return "", "struct pointer parameter used other than through a field"
+					}
+					for _, r2 := range *fa.Referrers() {
+						if u, ok := r2.(*ssa.UnOp); !ok || u.Op != token.MUL {
+							if _, dbg := r2.(*ssa.DebugRef); dbg {
+								continue
+							}
+							return "", "field of a struct pointer parameter is written or escapes"
+						}
+					}
+					t.ptrs[fa] = fmt.Sprintf("%s_%s", p.Name(), st.Field(fa.Field).Name())
+				}
+				continue
+			}
 		}
 		lt, ok := leanType(p.Type())
 		if !ok {
